@@ -547,7 +547,13 @@ func (h *history) apply(ctx context.Context, e evT) {
 	case "startup":
 		coq = "EStartup"
 		err := h.dd.LoadBeaconsFromDisk(ctx, "", false, "")
-		if err != nil {
+		anyKey := false
+		for _, id := range h.ids {
+			anyKey = anyKey || h.chains[id].onDisk >= 1
+		}
+		// with no key store at all the real code looks for a "default" store, finds no key pair and
+		// gives up without touching the tables (the model: start-up over an empty disk)
+		if err != nil && anyKey {
 			h.fail("C19-engine", "LoadBeaconsFromDisk failed: "+err.Error(), nil)
 		}
 		for _, id := range h.ids {
